@@ -213,7 +213,7 @@ func init() {
 		return &fw.Prop{
 			ID:          "C08",
 			Level:       "exploration",
-			Rule:        "cases = (face, operation, batch): every exported extension / algebra method of the Goldilocks chip executed on operand tuples with edge coordinates {0,1,2^32-1,2^32,2^63,p-2^32,p-1} in every slot plus seeded random (zero operands forced regularly); ExpExtension exponents 0..40, around powers of two up to 2^20, random 64-bit; ReduceWithPowers / InnerProductExtension on lists of length 0..300; PartialInterpolateExtAlgebra on 1..16 points; outputs compared with the native GF(p^2) / algebra reference (NoReduce variants: residues); inversion/division of zero must be REJECTED. Non-trivial = outputs were compared (or a zero inversion was judged); distinct by case id.",
+			Rule:        "cases = (face, operation, batch): every exported extension / algebra method of the Goldilocks chip executed on operand tuples with edge coordinates {0,1,2^32-1,2^32,2^63,p-2^32,p-1} in every slot plus seeded random (zero operands forced regularly); ExpExtension exponents 0..40, around powers of two up to 2^20, random 64-bit; ReduceWithPowers / InnerProductExtension on lists of length 0..300; PartialInterpolateExtAlgebra on 1..16 points; outputs compared with the native GF(p^2) / algebra reference (NoReduce variants: residues); inversion/division of zero must be REJECTED. Non-trivial = outputs were compared (or a zero inversion was judged); distinct by case id. Also: exponents 2^k-1, 2^k, 2^k+1 for k up to 64, and shared-operand shapes (an unreduced accumulator used twice, one variable in several positions) on compiled R1CS / SCS systems.",
 			Assumptions: []string{"ref/gl.go is the specification of GF(p^2) with X^2=7 (validated by identities at start)"},
 			MinEvents:   10000,
 			Setup:       func(ctx *fw.Ctx) error { return refSelfTest(false) },
